@@ -23,6 +23,7 @@
                                  q parent of d, q not x, q not a descendant of x} - and must agree as such: B[r] = In(r), N[p,r] = In(p),
                                  D[p,r] = In(r) without (p, r).  (Sibling agreement: an edit to one instance that is not made to the
                                  others makes GBP converge to a wrong fixed point on region graphs deep enough to tell them apart.)
+  graph-structure / region-structure   generic idiom rules over the structure-building code (rules/_generic.py: minimal_scan, grouped_runs)
   raw-arrays-by-name         where an oracle method pairs raw arrays cell by cell, both are laid out by the same domain
   total-stored / none-test   the oracle constructors store the caller's total as it is; a None default is tested by comparison with None (0 is a legal total)
 Not decided: exactness on acyclic structures as a numerical statement (only the agreement of the message sets above).
@@ -117,10 +118,14 @@ def run(ctx):
     check_on_copies(ctx)
     check_sweep_termination(ctx)
     check_region_partition(ctx)
-    from ._generic import minimal_scan
+    from ._generic import minimal_scan, grouped_runs
     for q_, f_ in sorted(ctx.repo.module(RG).funcs.items()):
         if q_.startswith('RegionGraph.') and '<locals>' not in q_:
             minimal_scan(ctx, f_, 'region-structure')
+            grouped_runs(ctx, f_, 'region-structure')
+    for q_, f_ in sorted(ctx.repo.module(FG).funcs.items()):
+        if q_.startswith('FactorGraph.') and '<locals>' not in q_:
+            grouped_runs(ctx, f_, 'graph-structure')
     check_raw_arrays(ctx)
     check_fg_datavector(ctx)
     check_carried_messages(ctx)
